@@ -34,6 +34,7 @@ type nodeJ struct {
 	Ctime  int64    `json:"ctime"`
 	Target []string `json:"target"`
 	Marks  []markJ  `json:"marks"`
+	Unk    bool     `json:"unk"` // content is not a concatenation of known chunks (cid starts with "?")
 
 	// input only
 	Islands [][2][2]int64 `json:"islands,omitempty"` // sparse content: [[off],[len]] pairs
@@ -304,6 +305,7 @@ func (w *world) snapshot() ([]nodeJ, string, error) {
 				}
 				h.Write([]byte(n.Cid))
 			}
+			n.Unk = strings.HasPrefix(n.Cid, "?")
 			nodes = append(nodes, n)
 		}
 		return nil
